@@ -3,10 +3,10 @@
 One protocol line per case (lean/PygModel/FilterDriver.lean):
     (flt inc|exc <table> <pred|N> <kwconds> <dictconds|N>)     (flt find <table> S:col <pred|N> <kwconds> <dictconds|N>)
 """
-import re, math
+import re, math, datetime
 import numpy as np
 from .. import proto
-from ..proto import enc, hexs
+from ..proto import enc, hexs, enck, key_name, name_key
 from ..engine import Finding, Timeout, with_timeout
 
 ID = 'C06'
@@ -21,7 +21,9 @@ RULE = ('distinct protocol lines (table, condition) on which the implementation 
 TRUSTED = ['correspondence harness (pv.engine, pv.proto), generators and reference predicate of pv.props.c06',
            'Lean driver parser/printer (PygModel/Basic.lean, TableDriver.lean, FilterDriver.lean)']
 ASSUMPTIONS = ['the theorems hold for ANY regex semantics String -> Bool; the driver instantiates it with RePat.search (literal characters, ".", "^", "$", re.I) '
-               '- that this is what re.search does is sampled; other regex syntax is checked by the laws only (python re is the reference there)',
+               '- that this is what re.search does is sampled; other regex syntax is checked by the laws only (python re is the reference there); re.I is modelled for ASCII '
+               'letters only (python also folds U+212A / U+017F / U+0130): patterns and cells of the generator are ASCII, without newline',
+               'a column key that is not a string (float / None / datetime) is NAMED U+0000 + its wire atom in the model; that the code treats it like any dict key is sampled',
                'membership in a list of admissible values is BY VALUE (python ==, NaN the same value as NaN whichever object holds it): Cell.valEq',
                'the NaN condition is true of NaN cells only; +-inf are ordinary float values',
                'callables are drawn from a fixed menu implemented on both sides',
@@ -53,6 +55,21 @@ def is_nan(x):
     return isinstance(x, float) and x != x
 
 
+# column KEYS that are not strings: `xyz` / `pivot` make one column per y value (a float, None, a datetime), and a dict of columns may have any
+# hashable key.  On the wire (and in the model) such a key is named U+0000 + its atom (proto.key_name); the runner gives the implementation the real key.
+# 1.0 / 2.0 are left out (the same dict key as 1 / True), NaN keys too (identity).
+KEYS = [1.5, 2.5, -0.25, None, datetime.datetime(2020, 1, 1), datetime.datetime(2021, 6, 30, 12)]
+
+
+def is_keyed(t):
+    return any(not isinstance(k, str) for k in t)
+
+
+def skeys(t):
+    """the column keys of a table in the order of their wire names"""
+    return sorted(dict.keys(t), key=key_name)
+
+
 def same_val(x, y):
     """equality of two cells as values: python ==, NaN the same value as NaN"""
     return (is_nan(x) and is_nan(y)) or x == y
@@ -65,6 +82,10 @@ def table(rng):
     # one table in six has a column whose NAME is a parameter name of the dictable constructor ('columns', 'data'): a result that is
     # rebuilt through keyword arguments would swallow it
     cols = rng.sample(NAMES + (['columns', 'data'] if rng.random() < 0.17 else []), k)
+    if rng.random() < 0.16:
+        # one table in six has one or two columns whose KEY is not a string (what pivot returns)
+        for j in rng.sample(range(k), min(k, rng.choice([1, 1, 2]))):
+            cols[j] = rng.choice([x for x in KEYS if x not in cols])
     t = {}
     for c in cols:
         pool = [cell(rng) for _ in range(rng.choice([1, 2, 3, 4, 6]))]
@@ -210,18 +231,19 @@ def pred_holds(p, row):
 
 
 def kvw(d):
-    return '(D' + ''.join(' (%s %s)' % (hexs(k), cond_wire(c)) for k, c in d.items()) + ')'
+    return '(D' + ''.join(' (%s %s)' % (hexs(key_name(k)), cond_wire(c)) for k, c in d.items()) + ')'
 
 
 def scenario(rng):
     """(table, pred|None, kw conds, dict conds|None, tag)"""
     t = table(rng)
     cols = list(t)
+    scols = [c for c in cols if isinstance(c, str)]      # a callable can only name string columns; it must still work beside the others
     r = rng.random()
     if r < 0.06:
         return t, None, {}, None, 'no-condition'
-    if r < 0.22:
-        return t, pred(rng, cols), {}, None, 'callable'
+    if r < 0.22 and scols:
+        return t, pred(rng, scols), {}, None, 'callable'
     if r < 0.26:
         # a parameter / key that is not a column
         if rng.random() < 0.5:
@@ -231,10 +253,16 @@ def scenario(rng):
     keys = rng.sample(cols, k)
     conds = {c: cond(rng, t[c]) for c in keys}
     q = rng.random()
-    if r < 0.29:
+    if any(not isinstance(c, str) for c in keys):
+        # a condition on a column whose key is not a string cannot be a keyword: a dict filter
+        skw = {c: v for c, v in conds.items() if isinstance(c, str)}
+        if skw and rng.random() < 0.5:
+            return t, None, skw, {c: v for c, v in conds.items() if not isinstance(c, str)}, 'dict+keyword'
+        return t, None, {}, conds, 'dict-filter'
+    if r < 0.29 and scols:
         # a callable AND keyword filters: outside the property's quantifier (the statement speaks of a single predicate
         # OR a conjunction of column conditions); model and code are still compared (correspondence only, no law)
-        return t, pred(rng, cols), conds, None, 'callable+keyword'
+        return t, pred(rng, scols), conds, None, 'callable+keyword'
     if q < 0.15:
         return t, None, {}, conds, 'dict-filter'
     if q < 0.22 and k == 2:
@@ -246,11 +274,12 @@ def scenario(rng):
 
 def lines_of(rng, sc):
     t, p, kw, dc, tag = sc
-    tw = enc(t)
+    tw = enck(t)
     tail = '%s %s %s' % (pred_wire(p), kvw(kw), kvw(dc) if dc is not None else 'N')
     out = ['(flt inc %s %s)' % (tw, tail), '(flt exc %s %s)' % (tw, tail)]
-    if t and rng.random() < 0.5:
-        out.append('(flt find %s %s %s)' % (tw, enc(rng.choice(list(t))), tail))
+    scols = [c for c in t if isinstance(c, str)]      # find_<col> is an attribute: string columns only
+    if scols and rng.random() < 0.5:
+        out.append('(flt find %s %s %s)' % (tw, enc(rng.choice(scols)), tail))
     elif rng.random() < 0.04:
         out.append('(flt find %s %s %s)' % (tw, enc('q'), tail))      # find_<col> of a column that is not there: KeyError
     return out
@@ -288,7 +317,7 @@ def generate(rng, tier):
             EXTRA.setdefault('condition_kinds', {})
             EXTRA['condition_kinds'][c[0]] = EXTRA['condition_kinds'].get(c[0], 0) + 1
         for line in lines_of(rng, sc):
-            yield dict(tag=sc[4] + ':' + s, lines=[line])
+            yield dict(tag=('keyed-columns:' if is_keyed(sc[0]) else '') + sc[4] + ':' + s, lines=[line])
 
 
 # ----------------------------------------------------------------------------- implementation runner
@@ -299,7 +328,7 @@ def _conds(x):
     out = {}
     for kv in x[1:]:
         v = kv[1]
-        out[proto.unhex(kv[0])] = (re.compile(proto.dec(v[1]), re.I if len(v) > 2 else 0)
+        out[name_key(proto.unhex(kv[0]))] = (re.compile(proto.dec(v[1]), re.I if len(v) > 2 else 0)
                                    if isinstance(v, list) and v and v[0] == 're' else proto.dec(v))
     return out
 
@@ -332,12 +361,12 @@ def new_state():
 def run_line(state, sx):
     from pyg_base import dictable
     op, args = sx[1], sx[2:]
-    d = dictable(proto.dec(args[0]))
+    d = dictable(proto.deck(args[0]))
     if op in ('inc', 'exc'):
         res = call(d, op, _pred(args[1]), _conds(args[2]), _conds(args[3]))
         if not isinstance(res, dictable):
             raise AssertionError('%s did not return a dictable' % op)
-        return 'ok ' + enc(dict(res))
+        return 'ok ' + enck(dict(res))
     if op == 'find':
         return 'ok ' + enc(call(d, op, _pred(args[2]), _conds(args[3]), _conds(args[4]), key=proto.dec(args[1])))
     return 'bad-op'
@@ -432,7 +461,7 @@ def recond(c, mode):
 
 
 def rows_of(t):
-    keys = sorted(dict.keys(t))
+    keys = skeys(t)
     cols = [dict.__getitem__(t, k) for k in keys]
     return [tuple(c[i] for c in cols) for i in range(len(cols[0]) if cols else 0)]
 
@@ -452,8 +481,10 @@ def laws(rng, tier, ctx):
             continue
         nrows = len(list(t.values())[0]) if t else 0
         conds = effective(kw, dc)
-        tw = enc(t)
+        tw = enck(t)
         tail = '%s %s %s' % (pred_wire(p), kvw(kw), kvw(dc) if dc is not None else 'N')
+        if is_keyed(t):
+            tag = 'keyed-columns:' + tag
         case = dict(tag='law:' + tag, lines=['(flt inc %s %s)' % (tw, tail), '(flt exc %s %s)' % (tw, tail)], atomic=True)
 
         def build():
@@ -465,7 +496,7 @@ def laws(rng, tier, ctx):
         count += 1
         d = build()
         all_rows = rows_of(d)
-        keys = sorted(t)
+        keys = skeys(t)
         want = []
         for i in range(nrows):
             row = {c: t[c][i] for c in t}
@@ -481,8 +512,8 @@ def laws(rng, tier, ctx):
         if not same_rows(rows_of(d), all_rows):
             yield Finding('violation', case, 'inc/exc altered the table')
             continue
-        if sorted(dict.keys(inc)) != keys or sorted(dict.keys(exc)) != keys:
-            yield Finding('violation', case, 'inc/exc lost columns: %s / %s of %s' % (sorted(dict.keys(inc)), sorted(dict.keys(exc)), keys))
+        if skeys(inc) != keys or skeys(exc) != keys:
+            yield Finding('violation', case, 'inc/exc lost columns: %s / %s of %s' % (skeys(inc), skeys(exc), keys))
             continue
         if not (conds or p):
             if not same_rows(rows_of(inc), all_rows):
@@ -502,11 +533,11 @@ def laws(rng, tier, ctx):
         except Exception as e:
             yield Finding('violation', case, 'inc of the inc result raised %s' % type(e).__name__)
             continue
-        if not same_rows(rows_of(again), rows_of(inc)) or sorted(dict.keys(again)) != keys:
+        if not same_rows(rows_of(again), rows_of(inc)) or skeys(again) != keys:
             yield Finding('violation', case, 'inc is not idempotent')
             continue
         # find_<col>
-        for c in t:
+        for c in [c for c in t if isinstance(c, str)]:
             count += 1
             sel = [v for v, w in zip(t[c], want) if w]
             distinct = []
@@ -533,7 +564,7 @@ def laws(rng, tier, ctx):
             count += 1
             ocase = dict(tag='law-one-or-none:' + tag, lines=['(flt inc %s %s)' % (tw, tail)])
             sel_rows = [r for r, w in zip(all_rows, want) if w]
-            fc = rng.choice(sorted(t)) if t and rng.random() < 0.4 else None
+            fc = rng.choice(skeys(t)) if t and rng.random() < 0.4 else None
             try:
                 args = ([pred_py(p)] if p else []) + ([{k: cond_py(c) for k, c in dc.items()}] if dc is not None else [])
                 got = with_timeout(lambda: build().one_or_none(*args, find=fc, **{k: cond_py(c) for k, c in kw.items()}), 5)
@@ -543,9 +574,9 @@ def laws(rng, tier, ctx):
                     if got is not None:
                         yield Finding('violation', ocase, 'one_or_none returned %r although no row is selected' % (got,))
                 elif fc is not None:
-                    if not same_cell(got, sel_rows[0][sorted(t).index(fc)]):
+                    if not same_cell(got, sel_rows[0][skeys(t).index(fc)]):
                         yield Finding('violation', ocase, 'one_or_none(find=%r) returned %r, the selected row is %r' % (fc, got, sel_rows[0]))
-                elif not isinstance(got, dict) or sorted(got.keys()) != sorted(t) or not same_rows([tuple(got[k] for k in sorted(t))], [sel_rows[0]]):
+                elif not isinstance(got, dict) or skeys(got) != skeys(t) or not same_rows([tuple(got[k] for k in skeys(t))], [sel_rows[0]]):
                     yield Finding('violation', ocase, 'one_or_none returned %r, the selected row is %r' % (got, sel_rows[0]))
             except Timeout:
                 yield Finding('violation', ocase, 'one_or_none does not return')
@@ -567,8 +598,8 @@ def laws(rng, tier, ctx):
                 dc2 = None if dc is None else {k: recond(c, mode) for k, c in dc.items()}
                 tail2 = '%s %s %s' % (pred_wire(p), kvw(kw2), kvw(dc2) if dc2 is not None else 'N')
                 res = []
-                for op, key in [('inc', None), ('exc', None)] + [('find', c) for c in t2]:
-                    line = '(flt %s %s %s%s)' % (op, enc(t2), enc(key) + ' ' if key else '', tail2)
+                for op, key in [('inc', None), ('exc', None)] + [('find', c) for c in t2 if isinstance(c, str)]:
+                    line = '(flt %s %s %s%s)' % (op, enck(t2), enc(key) + ' ' if key else '', tail2)
                     try:
                         r = with_timeout(lambda: call(dictable({k: list(v) for k, v in t2.items()}), op, pred_py(p) if p else None,
                                                       {k: cond_py(c) for k, c in kw2.items()},
